@@ -1,7 +1,8 @@
 -------------------------- MODULE Trace_FontCodes --------------------------
 (* Judges the events of one document written and read back by go-pdf         *)
 (* against the allocation rules of FontCodesBase.  One record:               *)
-(*   [fonts : [cap, perglyph], events, err, closeerr]   with events, in order *)
+(*   [fonts : [cap, perglyph], events, err, closeerr, tolerate]   with events  *)
+(*   in order,                                                               *)
 (*   [op |-> "enc",  f, g, t, ok, c, w, wt]   Layouter.Encode(g, t) = (c, ok) *)
 (*                                            and what the writer-side Codes *)
 (*                                            says for c: width w, text wt   *)
@@ -25,11 +26,20 @@ Fold(c, k, tabs, queue, reads) ==
            tab == tabs[e.f]
        IN IF e.op = "enc"
           THEN LET p == <<e.g, e.t>>
-               IN /\ EncodeAnswerOK(tab, c.fonts[e.f].cap, c.fonts[e.f].perglyph, p, e.ok, e.c)
+                   \* record judged a second time with c.tolerate: a font with one code per glyph
+                   \* may answer the glyph's existing code for a second text (recorded finding);
+                   \* the pair then is an alias of that code, whose text stays the first one
+                   alias == /\ c.tolerate /\ c.fonts[e.f].perglyph /\ ~KnownIn(tab, p) /\ e.ok
+                            /\ \E q \in DOMAIN tab.code : q[1] = p[1] /\ tab.code[q] = e.c
+               IN IF alias
+                  THEN Fold(c, k + 1, [tabs EXCEPT ![e.f].code = [q \in DOMAIN tab.code \cup {p} |-> IF q = p THEN e.c ELSE tab.code[q]]],
+                            queue, reads)
+                  ELSE
+                  /\ EncodeAnswerOK(tab, c.fonts[e.f].cap, c.fonts[e.f].perglyph, p, e.ok, e.c)
                   /\ IF e.ok /\ ~KnownIn(tab, p)
                      THEN /\ e.wt = e.t    \* the writer's own table holds the pair's text
                           /\ Fold(c, k + 1, [tabs EXCEPT ![e.f] = Allocate(tab, p, e.c, e.w)], queue, reads)
-                     ELSE /\ e.ok => (tab.info[e.c].w = e.w /\ e.wt = e.t)
+                     ELSE /\ e.ok => (tab.info[e.c].w = e.w /\ (c.tolerate \/ e.wt = e.t))
                           /\ Fold(c, k + 1, tabs, queue, reads)
           ELSE IF e.op = "show"
           THEN LET pairs == [i \in 1..Len(e.pairs) |-> <<e.pairs[i].g, e.pairs[i].t>>]
